@@ -390,6 +390,25 @@ pub fn run(tier: Tier) {
                                 if !r.same(exp) {
                                     ctx.violation_lazy(format!("C20/value-not-placed-exactly-at-the-parameter/{}/{vclass}", t.name), || json!({"case": case(), "expected": format!("{exp:?}"), "real": format!("{r:?}")}));
                                 } else {
+                                    // binding a parameter again replaces the value (templates are bound in a loop)
+                                    if n_t > 0 && !invalid_key_binding {
+                                        let again = b::int(424242);
+                                        let mut item2 = item.clone();
+                                        let mut env2 = env.clone();
+                                        env2.insert(t.term_params[0].to_string(), again.clone());
+                                        if let (Ok(Ok(())), Some(exp2)) = (guard(|| set_term(&mut item2, t.term_params[0], &again, how)), expected_of(&base, &env2, &kenv)) {
+                                            match realize(&item2) {
+                                                Ok(r2) if r2.same(&exp2) => {}
+                                                other => {
+                                                    // sets of mixed types after the re-binding are not comparable
+                                                    let in_set = t.name.contains("set-members") || t.name.contains("all-expression-literal");
+                                                    if !in_set {
+                                                        ctx.violation_lazy(format!("C20/binding-a-parameter-again-does-not-replace-the-value/{}", t.name), || json!({"case": case(), "second_value": "424242", "expected": format!("{exp2:?}"), "real": format!("{other:?}")}));
+                                                    }
+                                                }
+                                            }
+                                        }
+                                    }
                                     // printing the bound item and parsing it gives the same item (ties to C14);
                                     // a value that makes an ill-typed set (heterogeneous members, or a
                                     // collection inside a set) has no source form: not compared
